@@ -154,3 +154,53 @@ func VerifC11TriviaBetween() {
 	}
 	vf.Reach("end")
 }
+
+// VerifC11MetaSpaces: inside {...} the tokens are key, `=`, value, `,` and the braces; spaces,
+// tabs and line breaks between them change nothing: `{key = Am}` is `{key=Am}`. (A `;` inside
+// braces is text, not a comment; spaces INSIDE a key or value belong to it.)
+func VerifC11MetaSpaces() {
+	nk := vf.NondetIntRange("key.len", 1, vf.Param("C11.metaLen", 2))
+	nv := vf.NondetIntRange("val.len", 1, vf.Param("C11.metaLen", 2))
+	key, val := verifWindow("k", nk, true), verifWindow("v", nv, true)
+	for _, w := range [][]rune{key, val} {
+		for i, r := range w {
+			vf.Assume(r != '{' && r != '}' && r != '=' && r != ',')
+			if i == 0 || i == len(w)-1 {
+				vf.Assume(r != ' ' && r != '\t' && r != '\n' && r != '\v' && r != '\f' && r != '\r')
+			}
+		}
+	}
+	trivia := []rune([]string{" ", "\t", "\n", "  \n\t"}[vf.NondetIntRange("trivia", 0, 3)])
+	at := vf.NondetIntRange("at", 0, 5) // { ^0 key ^1 = ^2 value ^3 , ^4 x=y ^5 }
+	parts := [][]rune{[]rune("C[1]{"), key, []rune("="), val, []rune(","), []rune("x=y"), []rune("}")}
+	var plain, spaced []rune
+	for i, p := range parts {
+		plain = append(plain, p...)
+		spaced = append(spaced, p...)
+		if i == at {
+			spaced = append(spaced, trivia...)
+		}
+	}
+	vf.Unwind(40*len(spaced) + 400)
+	vf.MaxDepth(len(spaced) + 60)
+	parse := func(text []rune) ([]string, bool) {
+		lex, _ := verifNewLexer(text)
+		ret := Parse(lex)
+		if ret != 0 || lex.Err() != nil || lex.Result == nil {
+			return nil, false
+		}
+		return verifFlatten(lex.Result), true
+	}
+	a, aok := parse(plain)
+	b, bok := parse(spaced)
+	vf.Assert("metadata-block-parses", aok)
+	vf.Assert("spaces-between-metadata-tokens-same-outcome", aok == bok)
+	if aok && bok {
+		same := len(a) == len(b)
+		for i := 0; same && i < len(a); i++ {
+			same = a[i] == b[i]
+		}
+		vf.Assert("spaces-between-metadata-tokens-change-nothing", same)
+	}
+	vf.Reach("end")
+}
